@@ -76,6 +76,7 @@ type CCase struct {
 	Config  string
 	Show    bool
 	Variant string
+	Remap   string // "" | "before" (a //line comment precedes an inserted directive) | "control" (it follows directive and code line)
 	Base    []Diag
 	U       []UDiag
 	Dirs    []CDir
@@ -407,4 +408,3 @@ func main() {
 	runCli(rnd.Fork(), *work, *nvar, *allRuns, &o)
 	hx.EmitJSON(*out, o)
 }
-
